@@ -633,7 +633,7 @@ Inductive jtext :=
 | JArr (items : list jtext)
 | JObj (f : option face) (wr : option bool) (body : jbody)
 with jbody :=
-| JBGlyph (k : kind)
+| JBGlyph (k : kind) (ignored : option jtext)   (* "glyph", and the "text" the same object may carry: not visited *)
 | JBText (t : jtext)
 | JBNone.
 
@@ -658,7 +658,7 @@ Fixpoint jt_collect (st : jstate) (t : jtext) {struct t} : jstate :=
       let old := j_face st1 in
       let st2 := mkJ (j_cells st1) (j_wraps st1) (overlay old face) in
       let st3 := match body with
-                 | JBGlyph k => j_put st2 k
+                 | JBGlyph k _ => j_put st2 k
                  | JBText t' => jt_collect st2 t'
                  | JBNone => st2
                  end in
@@ -675,7 +675,7 @@ Fixpoint jt_emit (cur : face) (t : jtext) {struct t} : list ccell :=
   | JObj f _ body =>
       let cur' := overlay cur (match f with Some x => x | None => face0 end) in
       match body with
-      | JBGlyph k => [mkCell (overlay cur' cur') k]
+      | JBGlyph k _ => [mkCell (overlay cur' cur') k]
       | JBText t' => jt_emit cur' t'
       | JBNone => []
       end
